@@ -133,7 +133,7 @@ class Gen:
 
     def __init__(self, rng, comments=True, wide=False, rare=6):
         self.rng = rng
-        self.rare = rare  # 1/rare of the deprecated-name fields / one-variant unions are kept (known findings of C22)
+        self.rare = rare  # 1/rare of the deprecated-name fields are kept (known finding of C22)
         self.comments = comments
         self.wide = wide
 
@@ -216,11 +216,18 @@ class Gen:
             lines.append("//" + r.choice([" second", "", " 2\t"]))
         return lines
 
-    def variant(self):
+    def variant(self, bar=True):
+        """`| name …` (bar=False: the first variant of a union written without the leading bar). The comment of a variant
+        is the one ABOVE its bar (between `=`/the previous variant and `|`), that is where the parser looks for it; a
+        comment between the bar and the name is dropped by the parser and is generated more rarely."""
         r = self.rng
         toks = []
-        if self.comments and r.chance(1, 8):
+        if self.comments and r.chance(1, 5):
             toks.append(("cb", self.comment_text()))
+        if bar:
+            toks.append("|")
+            if self.comments and r.chance(1, 25):
+                toks.append(("cb", self.comment_text()))
         name = "Type" if r.chance(1, 30) else self.ident()
         toks.append(name)
         k = r.below(6)
@@ -239,12 +246,11 @@ class Gen:
         if k <= 4:
             fs = self.fields(0, 6)
             return fs
-        if k <= 5 and r.chance(1, self.rare):
-            return ["|"] + self.variant()
-        toks = ["|"] if r.chance(1, 2) else []
-        toks += self.variant()
+        if k <= 5:
+            return self.variant()  # one-variant union: `| A …`
+        toks = self.variant(bar=r.chance(1, 2))
         for _ in range(r.range(1, 4)):
-            toks += ["|"] + self.variant()
+            toks += self.variant()
         return toks
 
     def magic(self, required=False):
@@ -378,6 +384,30 @@ class Gen:
         for d in range(-3, 4):
             res.append(self.render(self.pad_to(toks, limit + d + self.rng.below(3)), tight=True).encode("utf-8") + b"\n")
         return res
+
+
+def comment_positions():
+    """small declarations with a `//` comment in every comment position the parser knows (above a declaration, above a
+    variant incl. the only variant of a one-variant union, above fields, to the right of fields, trailing), for type
+    declarations and function results, each with bare / alias / fields variants."""
+    bodies = {"bare": "A", "alias": "A int", "fields": "A x:int y:string", "field1": "A x:[]m<int,3>"}
+    out = []
+    for c in ("// the only variant", "// one\n\t// two", "//", "// ж utf8 ", "//\ttab\t"):
+        c = c.replace("\\n", "\n").replace("\\t", "\t")
+        for b in bodies.values():
+            for head in ("a =", "a#0000000a<t:Type> =", "f#00000001 x:int =>", "f#00000001 =>"):
+                out.append("%s\n\t%s\n\t| %s;\n" % (head, c, b))                      # above the only variant
+                out.append("%s %s\n| %s;\n" % (head, c, b))                             # same line as `=`
+                out.append("%s\n\t%s\n\t| %s\n\t%s\n\t| B;\n" % (head, c, b, c))     # above every variant
+                out.append("%s\n\t%s\n\t%s | B;\n" % (head, c, b))                     # above the first, no leading bar
+                out.append("%s | %s %s\n | B y:int;\n" % (head, b, c))                   # after a variant = above the next bar
+                out.append("%s | %s\n\t\t%s\n\t\tz:int;\n" % (head, bodies["fields"], c))  # above a field of the only variant
+        for head in ("a =", "f#00000001 =>", "f#00000001"):
+            out.append("%s\n\t%s\n\tx:int\n\t%s\n\ty?:string;\n" % (head, c, c))    # above fields
+            out.append("%s x:int %s\n y:string %s\n;\n" % (head, c, c))                # to the right of fields
+        out.append("%s\n@x a = | A;\n%s\nb <=> int; %s\n" % (c, c, c))                  # above declarations, trailing
+        out.append("a = | A; %s\n\n%s\n\n%s\nb = x:int;\n%s\n" % (c, c, c, c))
+    return [t.encode("utf-8") for t in out]
 
 
 def parse_line(t):
